@@ -545,13 +545,18 @@ def decodeTriples : List (J ν) → Option (List (Nat × Nat × ν))
 
 def cellAt (rows : List (List ν)) (i j : Nat) : Option ν := (rows[i]?).bind (·[j]?)
 
-/-- the multiset of triples is exactly `{(i,j,v) | v = T[i][j] ≠ 0}` -/
+/-- the multiset of triples is exactly `{(i,j,v) | v = T[i][j] ≠ 0}`: all triples are in range and,
+for every cell, the values of the triples naming it are the cell's value if non-zero, nothing otherwise
+(the triples of a row are selected once per row, so the check is linear in rows x triples) -/
 def dataOk [DecidableEq ν] [Zero ν] (rows : List (List ν)) (n m : Nat) (ts : List (Nat × Nat × ν)) : Bool :=
   ts.all (fun t => t.1 < n && t.2.1 < m) &&
-  (List.range n).all (fun i => (List.range m).all (fun j =>
-    entriesAt ts i j == (match cellAt rows i j with
-                         | some v => if v = 0 then [] else [v]
-                         | none => [])))
+  (List.range n).all (fun i =>
+    let ri := ts.filter (fun t => t.1 == i)
+    (List.range m).all (fun j =>
+      (ri.filter (fun t => t.2.1 == j)).map (·.2.2) ==
+        (match cellAt rows i j with
+         | some v => if v = 0 then [] else [v]
+         | none => [])))
 
 def fieldIs [DecidableEq ν] (d : J ν) (k : String) (v : J ν) : Bool :=
   match d.get? k with
